@@ -70,15 +70,46 @@ theorem applyAll_removeFields (fs : List String) (m : KV) :
     congr 1
     simp only [removeFieldW, applyAll, List.foldl_cons, List.foldl_nil, AW.apply, test_terms, test_entries]
 
+/-- The sweep shared by DeleteGraph (after the graph key) and AddGraph of an unlisted name. -/
+theorem sweepW_kv (s : KState) (g : String) : applyAll (sweepW s.kv g) s.kv = (sweepGraph s g).kv := by
+  unfold sweepW sweepGraph
+  rw [applyAll_append, applyAll_removeFields]
+  simp only [applyAll, List.foldl_cons, List.foldl_nil, AW.apply, test_edges, test_verts, test_srcs, test_dsts]
+  congr 1
+  unfold graphFields
+  congr 1
+  symm
+  change persistedFields (KV.delWhere _ _) = persistedFields s.kv
+  repeat rw [persistedFields_delWhere _ _ (by intro f; rfl)]
+
+theorem sweepGraph_fields (s : KState) (g : String) :
+    (sweepGraph s g).fields = s.fields.filter (fun f => !(graphFields s.kv g).contains f) := by
+  have e : graphFields s.kv g = List.filter (fun f => decide (fieldGraph f = g))
+      (persistedFields ((((s.kv.delWhere (Pat.test (.edges g))).delWhere (Pat.test (.verts g))).delWhere
+        (Pat.test (.srcs g))).delWhere (Pat.test (.dsts g)))) := by
+    unfold graphFields
+    repeat rw [persistedFields_delWhere _ _ (by intro f; rfl)]
+  rw [e]
+  simp only [test_edges, test_verts, test_srcs, test_dsts]
+  rfl
+
+theorem writes_delGraph (s : KState) (g : String) :
+    writes s (.delGraph g) = [AW.del (.graph g), .delPat (.edges g), .delPat (.verts g), .delPat (.srcs g), .delPat (.dsts g)]
+      ++ (graphFields s.kv g).flatMap removeFieldW := rfl
+
 theorem step_eq_writes (s : KState) (op : Op) : applyAll (writes s op) s.kv = (step s op).1.kv := by
   cases op with
   | addGraph g =>
     unfold writes step
     by_cases h : validName g = true
-    · simp [h, applyAll, AW.apply, KState.touch]
+    · by_cases hg : hasGraph s g = true
+      · simp [h, hg, applyAll, AW.apply, KState.touch]
+      · simp only [h, hg, Bool.not_true, Bool.false_eq_true, if_false, applyAll_append, sweepW_kv]
+        simp [applyAll, AW.apply, KState.touch]
     · simp [h, applyAll]
   | delGraph g =>
-    unfold writes step
+    rw [writes_delGraph]
+    unfold step
     rw [applyAll_append, applyAll_removeFields]
     simp only [applyAll, List.foldl_cons, List.foldl_nil, AW.apply, test_edges, test_verts, test_srcs, test_dsts,
       KState.touch, del_delWhere_comm]
